@@ -77,6 +77,9 @@ func doNerr(id string, x *sexp) (out string) {
 	}
 	oracle := "ok"
 	var outs []string
+	var callerMaps []parser.ErrVals
+	var callerSizes []int
+	const callerMark = "changed by the caller after Set"
 	for _, op := range x.list[4].list {
 		if !op.isL || len(op.list) < 2 {
 			return id + " BADCASE"
@@ -130,8 +133,27 @@ func doNerr(id string, x *sexp) (out string) {
 			} else {
 				outs = append(outs, "s")
 			}
+			// the map stays the caller's: the caller changes it after Set (no effect on the error
+			// if Set merged a copy) and it must never be written by the library
+			for key := range vals {
+				vals[key] = callerMark
+			}
+			vals["~caller"] = callerMark
+			callerMaps = append(callerMaps, vals)
+			callerSizes = append(callerSizes, len(vals))
 		default:
 			return id + " BADCASE"
+		}
+		for i, m := range callerMaps {
+			intact := len(m) == callerSizes[i]
+			for _, v := range m {
+				if s, ok := v.(string); !ok || s != callerMark {
+					intact = false
+				}
+			}
+			if !intact {
+				outs[len(outs)-1] += "+sALIAS"
+			}
 		}
 	}
 	return id + " out=" + strings.Join(outs, ";") + " oracle=" + oracle
